@@ -54,7 +54,10 @@ static ByteArray BA(const std::string& s)
 }
 
 enum { A_LANE, A_CLIENT, A_METHOD, A_CODE, A_FLAGS, A_RLEN, A_RSEED, A_RKIND, A_PLEN, A_PSEED, A_PKIND, A_RMODE, A_FRAG, A_FSEED,
-	   A_NQ, A_NRH, A_NPH, A_RANGE, A_RB, A_RE, A_V6, A_IMS, A_COUNT };
+	   A_NQ, A_NRH, A_NPH, A_RANGE, A_RB, A_RE, A_V6, A_IMS, A_CUT, A_TWICE, A_COUNT };
+// A_CUT k+1: the raw client sends only the first k bytes (k modulo the request length) and half-closes the connection
+// A_TWICE d+1: a body is set twice on the same message: first a decoy through setter d (0 ByteArray, 1 String, 2 const char*,
+//              3 Var, 4 File, 5 serveFile()), then the real one -- the last one set must be the one that travels
 enum { S_PATH, S_METHOD, S_FIRST };
 enum { CL_REQUEST = 0, CL_STATIC = 1, CL_RAW = 2, CL_MINI = 3 };
 enum { RM_BYTES = 0, RM_STRING = 1, RM_STREAM = 2, RM_JSON = 3, RM_FILE = 4, RM_NONE = 5, RM_CHUNKED = 6, RM_SERVE = 7 };
@@ -557,6 +560,9 @@ struct Spec {
 	std::string want_body, want_content_range, want_mime, file_ext;
 	bool serve = false; // file served by HttpServer::serveFile() from the web root
 	int ims = 0;        // If-Modified-Since variant
+	long cut = 0;       // >0: truncated request (cut-1 modulo the wire length bytes are sent)
+	int twice = 0;      // >0: decoy body setter twice-1 before the real one
+	std::string decoyfile, cutclass;
 	long mtime = 0;
 	std::string ims_value, servedir;
 	// results
@@ -747,11 +753,28 @@ struct Srv : public HttpServer {
 			r.setHeader("X-C10-Token", String(s.id));
 		};
 		bool late = (s.flags & F_LATECODE) && s.rmode != RM_STREAM && s.rmode != RM_CHUNKED && !s.serve; // serveFile() sets the status itself
+		bool decoy = s.twice && (s.rmode == RM_BYTES || s.rmode == RM_STRING || s.rmode == RM_JSON || s.rmode == RM_FILE);
+		if (decoy) {
+			// a body that is replaced afterwards: whatever was set first, the response is the one set last
+			switch (s.twice - 1) {
+			case 0: r.put(BA(gen_body(s.respbody.size() / 2 + 3, s.fseed + 9, 0))); break;
+			case 1: r.put(String("first body, to be replaced\r\n")); break;
+			case 2: r.put("first body (const char*), to be replaced"); break;
+			case 3: r.put(to_var(gen_json_doc(s.fseed + 11, 30))); break;
+			case 4: r.put(asl::File(AS(s.decoyfile))); break;
+			default: serveFile(q, r); break; // usually "404 Not found" (no such file below the root); status and headers follow
+			}
+		}
 		if (!late)
 			head();
 		switch (s.rmode) {
 		case RM_BYTES: r.put(BA(s.respbody)); break;
-		case RM_STRING: r.put(AS(s.respbody)); break;
+		case RM_STRING:
+			if (s.fseed & 2048)
+				r.put(s.respbody.c_str()); // const char* overload (the content is NUL-free)
+			else
+				r.put(AS(s.respbody));
+			break;
 		case RM_JSON: r.put(to_var(s.pj)); break;
 		case RM_FILE:
 			if (s.serve)
@@ -1027,6 +1050,8 @@ static SpecP make_spec(const vf::Op& o, int idx, int attempt)
 	s.fseed = (uint64_t)I(A_FSEED);
 	s.v6 = U(A_V6, 2) == 1 && (s.client == CL_MINI ? g_mini6 != 0 : g_srv[1] != 0);
 	s.code = 200 + (int)U(A_CODE, 400);
+	s.cut = s.client == CL_RAW ? (long)U(A_CUT, 1 << 20) : 0;
+	s.twice = (int)U(A_TWICE, 7);
 	int flags = s.flags;
 	// method
 	int mi = s.serve ? 0 : (int)U(A_METHOD, 6); // serveFile() answers GET only
@@ -1242,6 +1267,14 @@ static SpecP make_spec(const vf::Op& o, int idx, int attempt)
 		; // only ok() is visible: any code
 	if (flags & F_DOWNLOAD)
 		s.dlfile = tmpdir() + "/dl_" + idb + ".bin";
+	if (s.cut) // a truncated request is sent in one go on its own connection
+		flags &= ~(F_KEEP | F_EXPECT | F_SMALLRCV);
+	if (s.client == CL_MINI || s.rmode == RM_STREAM || s.rmode == RM_CHUNKED || s.rmode == RM_NONE)
+		s.twice = (s.client == CL_REQUEST && s.twice) ? s.twice : 0; // no response-side decoy where the real body is not a put()
+	if (s.serve && s.want_code == 304)
+		s.twice = 0; // serveFile() answering 304 sets no body, so an earlier body would rightly stay
+	if (s.twice)
+		s.decoyfile = tmpdir() + "/decoy_" + idb + ".txt";
 	s.flags = flags;
 	return sp;
 }
@@ -1375,6 +1408,15 @@ static void lib_exchange(Spec& s, std::vector<std::string>& e)
 			if (s.ims)
 				req.setHeader("if-modified-since", AS(s.ims_value));
 		}
+		if (s.twice && !bodyless) {
+			switch ((s.twice - 1) % 5) {
+			case 0: req.put(BA(gen_body(s.reqbody.size() / 2 + 3, s.fseed + 9, 0))); break;
+			case 1: req.put(String("first request body, to be replaced\r\n")); break;
+			case 2: req.put("first request body (const char*), to be replaced"); break;
+			case 3: req.put(to_var(gen_json_doc(s.fseed + 13, 30))); break;
+			default: req.put(asl::File(AS(s.decoyfile))); break;
+			}
+		}
 		if (f & F_FILEREQ)
 			req.put(asl::File(AS(s.reqfile)));
 		else if (s.reqjson)
@@ -1433,8 +1475,48 @@ static std::string raw_once(Spec& s, LaneState& L, bool reuse, bool& nothing, do
 	if (expect)
 		hs.push_back(std::make_pair(std::string((s.fseed & 256) ? "expect" : "Expect"), std::string("100-continue")));
 	bool add_len = !s.reqbody.empty() || (s.fseed & 128) || expect;
+	std::vector<size_t> chunk_sizes = make_chunks(s.fseed + 1, s.reqbody.size());
+	if (s.cut) { // small chunks, so that a short body has several of them
+		ref::SplitMix g(s.fseed ^ 0x1234567);
+		chunk_sizes.clear();
+		for (int i = 0; i < 6; i++)
+			chunk_sizes.push_back(1 + (size_t)g.below(s.reqbody.size() / 3 + 2));
+	}
 	std::string wire = ref::http_build(s.method + " " + s.target + (http10 ? " HTTP/1.0" : " HTTP/1.1"), hs, s.reqbody, chunked,
-									   make_chunks(s.fseed + 1, s.reqbody.size()), (f & F_UPPERHEX) != 0, add_len, &head_len, &lines);
+									   chunk_sizes, (f & F_UPPERHEX) != 0, add_len, &head_len, &lines);
+	if (s.cut) {
+		// only the first k bytes are sent, then the sending side is closed; the response side is read until the server ends
+		size_t k = (size_t)(s.cut - 1) % wire.size();
+		s.cut = (long)k + 1;
+		s.cutclass = k < head_len ? "inside the head" : "inside the body";
+		if (k == head_len)
+			s.cutclass = "right after the head";
+		if (chunked && k > head_len) {
+			for (size_t i = 0; i < lines.size(); i++) {
+				size_t ls = lines[i], le = wire.find('\n', ls) + 1; // chunk-size line [ls, le)
+				bool last = i + 1 == lines.size();
+				size_t next = last ? wire.size() : lines[i + 1];
+				if (k > ls && k < le)
+					s.cutclass = last ? "inside the last-chunk line" : "inside a chunk-size line";
+				else if (k == ls)
+					s.cutclass = "between two chunks";
+				else if (!last && k >= le && k + 2 <= next)
+					s.cutclass = k + 2 == next ? "right after a chunk's data" : k == le ? "right after a chunk-size line" : "inside a chunk's data";
+				else if (!last && k + 1 == next)
+					s.cutclass = "between CR and LF after a chunk's data";
+				else if (last && k >= le)
+					s.cutclass = "inside the final CRLF";
+			}
+		}
+		std::vector<size_t> cc = make_cuts(s.frag, s.fseed, k, head_len < k ? head_len : k, std::vector<size_t>());
+		bool ok = k == 0 || L.conn.send_frags(wire.substr(0, k), cc, 0, s.fseed);
+		gap = L.conn.max_gap;
+		::shutdown(L.conn.fd, SHUT_WR);
+		(void)ok;
+		L.conn.drain_to_eof(); // the server closes once it is done with the connection (after the handler, if it ran)
+		L.conn.close();
+		return "";
+	}
 	std::vector<size_t> cuts = make_cuts(s.frag, s.fseed, wire.size(), head_len, lines);
 	bool sent;
 	if (!expect)
@@ -1535,6 +1617,8 @@ static Outcome do_exchange(const vf::Op& o, int idx, int attempt, LaneState& L, 
 	std::vector<std::string> e;
 	if (!s.reqfile.empty() && !write_file(s.reqfile, s.reqbody))
 		e.push_back("harness: cannot write " + s.reqfile);
+	if (!s.decoyfile.empty() && !write_file(s.decoyfile, "decoy file: this body was replaced by a later put()\n"))
+		e.push_back("harness: cannot write " + s.decoyfile);
 	if (s.serve) {
 		mkdir((tmpdir() + "/c10").c_str(), 0755);
 		mkdir(s.servedir.c_str(), 0755);
@@ -1566,12 +1650,15 @@ static Outcome do_exchange(const vf::Op& o, int idx, int attempt, LaneState& L, 
 	out.seconds = ref::mono_s() - t0;
 	{
 		std::lock_guard<std::mutex> l(s.m);
-		if (s.handled != 1 && e.empty())
+		// a truncated request reaches the handler complete or not at all
+		if ((s.cut ? s.handled > 1 : s.handled != 1) && e.empty())
 			e.push_back("handler ran " + std::to_string(s.handled) + " times for one request");
+		if (s.cut && !s.errors.empty())
+			e.push_back("a request cut after " + std::to_string(s.cut - 1) + " bytes (" + s.cutclass + ") reached the handler although it was incomplete");
 		for (auto& x : s.errors)
 			e.insert(e.begin(), x);
 	}
-	for (const std::string* fn : {&s.reqfile, &s.respfile, &s.dlfile})
+	for (const std::string* fn : {&s.reqfile, &s.respfile, &s.dlfile, &s.decoyfile})
 		if (!fn->empty())
 			unlink(fn->c_str());
 	if (s.serve)
@@ -1662,6 +1749,19 @@ static void record_stats(const Spec& s, int lanes, const Outcome& out)
 		st.cls(std::string("file.serveFile.if_modified_since.") + K[s.ims]);
 		if (s.ims && s.range)
 			st.cls("file.serveFile.if_modified_since_with_range");
+	}
+	if (s.cut) {
+		st.cls("raw.truncated_request");
+		st.cls(std::string("raw.truncated.") + ((s.flags & F_CHUNKED) && !(s.flags & F_HTTP10) ? "chunked: " : "length: ") + s.cutclass);
+		st.cls(s.handled ? "raw.truncated.handler_ran(with the complete body)" : "raw.truncated.handler_not_called");
+	}
+	if (s.twice) {
+		static const char* D[] = {"ByteArray", "String", "const char*", "Var", "File", "serveFile"};
+		bool resp = s.client != CL_MINI && (s.rmode == RM_BYTES || s.rmode == RM_STRING || s.rmode == RM_JSON || s.rmode == RM_FILE);
+		if (resp)
+			st.cls(std::string("twice.response.") + D[s.twice - 1] + "_then_" + (s.rmode == RM_BYTES ? "ByteArray" : s.rmode == RM_STRING ? "String" : s.rmode == RM_JSON ? "Var" : s.serve ? "serveFile" : "File"));
+		if (s.client == CL_REQUEST && !(s.flags & (F_UPLOAD | F_DOWNLOAD)) && !(s.reqbody.empty() && !s.reqjson && !(s.flags & F_FILEREQ) && (s.flags & F_NOBODYCALL)))
+			st.cls(std::string("twice.request.") + D[(s.twice - 1) % 5] + "_then_" + ((s.flags & F_FILEREQ) ? "File" : s.reqjson ? "Var" : (s.flags & F_STRBODY) ? "String" : "ByteArray"));
 	}
 	if (s.rmode == RM_STREAM)
 		st.cls("response.streamed_write");
@@ -1990,6 +2090,8 @@ static rc::Gen<vf::Op> genEx(int profile, int maxlen, int lanes)
 		o.a[A_RE] = pct(15) ? o.a[A_RB] : pos();
 		o.a[A_V6] = pct(20) ? 1 : 0;
 		o.a[A_IMS] = pct(35) ? 0 : *vf::irange<int>(1, 8);
+		o.a[A_CUT] = (profile == P_GENERAL && pct(6)) ? *vf::irange<int>(1, 4000) : 0;
+		o.a[A_TWICE] = pct(profile == P_FILECONC ? 10 : 25) ? *vf::irange<int>(1, 6) : 0;
 		o.s[S_PATH] = pct(30) ? std::string() : genBytesFrom("/.%? #+&=;:@\\\"<>\x7f\xc3\xa9", 1, 255, 40);
 		int nq = pct(50) ? 0 : *vf::srange<int>(1, 6);
 		int nrh = pct(35) ? 0 : *vf::srange<int>(1, 12);
@@ -2071,6 +2173,12 @@ void vf_search(const vf::Args& a)
 	const bool quick = a.quick();
 	const int W = a.workers > 0 ? a.workers : 1;
 	ref::SplitMix rng(a.seed * 1000 + (uint64_t)a.worker + 77);
+	double tmark = ref::mono_s();
+	auto mark = [&](int line) { // per-part wall time in the worker log (diagnostics only)
+		double now = ref::mono_s();
+		printf("[time] worker %d: part ending at line %d took %.1f s\n", a.worker, line, now - tmark);
+		tmark = now;
+	};
 
 	// an exchange whose request and response bodies have the given lengths, everything else varied from the PRNG
 	auto sized = [&](int k, size_t rlen, size_t plen) {
@@ -2121,6 +2229,7 @@ void vf_search(const vf::Args& a)
 		}
 		vf::stats().part("sizes.every_length_0..2048_both_directions_x3_clients", n, false);
 	}();
+	mark(__LINE__);
 
 	// (2) +-8 around the block sizes, sampled lengths up to 300 KiB (thorough: every length 0..300 KiB, MiB sizes)
 	[&]() {
@@ -2200,6 +2309,7 @@ void vf_search(const vf::Args& a)
 		}
 		vf::stats().part("bigsizes", n, false);
 	}();
+	mark(__LINE__);
 	if (!quick)
 		[&]() {
 			// every length 0..300 KiB, split over the workers, request and response lengths paired by a bijection
@@ -2265,6 +2375,7 @@ void vf_search(const vf::Args& a)
 		}
 		vf::stats().part("ranges.every_b_e_of_small_files_x3_clients", n, true);
 	}();
+	mark(__LINE__);
 
 	// (3b) conditional requests for files served by serveFile(): every If-Modified-Since variant x 4 clients x with/without Range
 	[&]() {
@@ -2306,14 +2417,111 @@ void vf_search(const vf::Args& a)
 		}
 		vf::stats().part("conditional.if_modified_since_x_clients_x_range", n, false);
 	}();
+	mark(__LINE__);
+
+	// (3c) truncated requests: chunked (2-5 chunks) and Content-Length requests cut after EVERY byte, then half-closed
+	[&]() {
+		uint64_t n = 0;
+		std::vector<vf::Op> batch;
+		int k = 0;
+		struct Shape { int chunked; int len; };
+		std::vector<Shape> shapes = {{1, 12}, {1, 29}, {0, 17}, {0, 0}};
+		if (!quick) {
+			shapes.push_back({1, 5});
+			shapes.push_back({1, 60});
+			shapes.push_back({0, 300});
+		}
+		for (size_t si = 0; si < shapes.size(); si++) {
+			long long rseed = (long long)rng.below(1 << 30), fseed = (long long)rng.below(1 << 30);
+			if (W > 1) { // all workers sweep the same request
+				ref::SplitMix same(a.seed * 77 + si);
+				rseed = (long long)same.below(1 << 30);
+				fseed = (long long)same.below(1 << 30);
+			}
+			int span = 230 + shapes[si].len * 2 + (shapes[si].len > 100 ? 200 : 0);
+			for (int pos = 0; pos < span; pos++, k++) {
+				if (k % W != a.worker)
+					continue;
+				vf::Op o = ex_op();
+				o.a[A_LANE] = k % 4;
+				o.a[A_CLIENT] = CL_RAW;
+				o.a[A_METHOD] = 1 + (int)si % 3;
+				o.a[A_FLAGS] = (shapes[si].chunked ? F_CHUNKED : 0) | (si % 2 ? F_UPPERHEX : 0);
+				o.a[A_RLEN] = shapes[si].len;
+				o.a[A_RSEED] = rseed;
+				o.a[A_RKIND] = (long long)si % 3;
+				o.a[A_PLEN] = 5;
+				o.a[A_FSEED] = fseed;
+				o.a[A_FRAG] = pos % 7 == 3 ? 6 : 0;
+				o.a[A_CUT] = pos + 1;
+				batch.push_back(o);
+				if (batch.size() >= 32) {
+					n += batch.size();
+					if (!run_ops("truncated", batch))
+						return;
+					batch.clear();
+				}
+			}
+		}
+		if (!batch.empty()) {
+			n += batch.size();
+			if (!run_ops("truncated", batch))
+				return;
+		}
+		vf::stats().part("truncated.request_cut_after_every_byte", n, false);
+	}();
+	mark(__LINE__);
+
+	// (3d) a body set twice on the same message: every (first setter, last setter) pair, response and request side
+	[&]() {
+		uint64_t n = 0;
+		std::vector<vf::Op> batch;
+		int k = 0;
+		static const int REAL[] = {RM_BYTES, RM_STRING, RM_JSON, RM_FILE, RM_SERVE};
+		for (int rep = 0; rep < (quick ? 1 : 6); rep++)
+			for (int decoy = 1; decoy <= 6; decoy++)
+				for (int real = 0; real < 5; real++)
+					for (int cl = 0; cl < 2; cl++, k++) {
+						if (k % W != a.worker)
+							continue;
+						vf::Op o = sized(cl == 0 ? 1 : 0, (size_t)(1 + rng.below(400)), (size_t)(1 + rng.below(3000)));
+						o.a[A_LANE] = k % 3;
+						o.a[A_METHOD] = real == 4 ? 0 : 1 + k % 3;
+						int reqkind = (k / 2) % 4; // request body through ByteArray / String / Var / File
+						o.a[A_FLAGS] = (o.a[A_FLAGS] & ~(F_EXPECT | F_NOBODYCALL | F_STRBODY)) | (cl == 0 ? (reqkind == 1 ? F_STRBODY : reqkind == 2 ? F_JSONREQ : reqkind == 3 ? F_FILEREQ : 0) : 0);
+						o.a[A_RMODE] = REAL[real];
+						o.a[A_RANGE] = 0;
+						o.a[A_TWICE] = decoy;
+						batch.push_back(o);
+						if (batch.size() >= 20) {
+							n += batch.size();
+							if (!run_ops("twice", batch))
+								return;
+							batch.clear();
+						}
+					}
+		if (!batch.empty()) {
+			n += batch.size();
+			if (!run_ops("twice", batch))
+				return;
+		}
+		vf::stats().part("twice.every_pair_of_body_setters", n, false);
+	}();
+	mark(__LINE__);
 
 	// (4) generated exchanges
 	[&]() { vf::check_cases("exchange", a.n(260, 2000), 6, genCase(P_GENERAL, 300 << 10, 3, 1)); }();
+	mark(__LINE__);
 	[&]() { vf::check_cases("files", a.n(120, 1000), 6, genCase(P_FILES, 300000, 3, 1)); }();
+	mark(__LINE__);
 	[&]() { vf::check_cases("json", a.n(60, 600), 5, genCase(P_JSON, 3000, 2, 1)); }();
+	mark(__LINE__);
 	[&]() { vf::check_cases("refserver", a.n(120, 1200), 5, genCase(P_MINI, 300 << 10, 3, 1)); }();
+	mark(__LINE__);
 	// (5) 2..64 clients in flight at once
 	[&]() { vf::check_cases("concurrent", a.n(36, 250), 10, genCase(P_CONC, 70000, 64, 2)); }();
+	mark(__LINE__);
 	// (6) 8..32 clients requesting small static files at once, about half of them with an extension never served before
-	[&]() { vf::check_cases("concurrent_files", a.n(60, 150), 10, genCase(P_FILECONC, 20000, 32, 2)); }();
+	[&]() { vf::check_cases("concurrent_files", a.n(45, 150), 10, genCase(P_FILECONC, 20000, 32, 2)); }();
+	mark(__LINE__);
 }
